@@ -19,7 +19,7 @@ def extra(r):
 
 
 def run(v, tier, seed, replay):
-    cases, impl, model = seqcheck.run(v, tier, seed, replay, "C08", ["C08"], tree_oracles=["no_panic", "retained", "exactly_once"], wild_oracles=["no_panic"], knobs=knobs, extra_cases=extra,
+    cases, impl, model = seqcheck.run(v, tier, seed, replay, "C08", ["C08", "Parked"], tree_oracles=["no_panic", "retained", "exactly_once"], wild_oracles=["no_panic"], knobs=knobs, extra_cases=extra,
                  n_quick=(1800, 450), n_thorough=(60000, 10000),
                  nontrivial=lambda lines, tr: bool(tr.stats),
                  assumptions=["a start drained in a later cycle than its commit/drop leaves a permanent entry (open finding D4, C08 example); not reachable at the harness' granularity of whole cycles"])
